@@ -75,7 +75,7 @@ def designed_history(rng):
         elif d == 'g92':
             evs += [('cmd', 'G92 E0'), ('cmd', 'G1 F1234')]
     evs += rng.choice([[], [('event', 'PRINT_CANCELLED')], [('event', 'PRINT_FAILED')], [('script', 'gcode', 'afterPrintDone'), ('event', 'PRINT_DONE')], [('event', 'ERROR')]])
-    tail = [('cmd', 'G28'), ('cmd', 'G1 X5 Y5 Z0.3 E1 F3000'), ('cmd', 'M204 S500'), ('cmd', 'G1 X15 Y15 E0.5'), ('cmd', 'M204 S700'), ('cmd', 'G4 P100'), ('cmd', 'M117 tail'), ('cmd', 'M73 P9'), ('cmd', 'G1 X16 Y16 E2'),
+    tail = [('cmd', 'G28'), ('cmd', rng.choice(['G1 X5 Y5 Z0.3 E1 F3000', 'G1 X5 Y5 Z0.3 E1'])), ('cmd', 'M204 S500'), ('cmd', 'G1 X15 Y15 E0.5'), ('cmd', 'M204 S700'), ('cmd', 'G4 P100'), ('cmd', 'M117 tail'), ('cmd', 'M73 P9'), ('cmd', 'G1 X16 Y16 E2'),
             ('cmd', 'G1 X30 Y30 E3'), ('cmd', 'G1 E2'), ('cmd', 'G1 X15 Y15'), ('cmd', 'G1 E3'), ('cmd', 'G1 X40 Y40'), ('cmd', 'G1 X41 Y41 E4'),
             ('cmd', 'G10'), ('cmd', 'G1 X12 Y12'), ('cmd', 'G11'), ('cmd', 'G1 X50 Y50 E5'), ('script', 'gcode', 'afterPrintDone')]
     return dict(settings=st0, events=evs, tail=tail)
